@@ -53,7 +53,7 @@ FAIL_KINDS = ["failed", "timeout", "oom", "nodefail"]
 class Job:
     __slots__ = ("id", "name", "script", "deps", "dep_mode", "phase", "result", "code", "live", "acct", "foreign",
                  "submit_seq", "from_gwf", "directives", "start_seq", "end_seq", "deps_at_submit", "invalid_dep",
-                 "held_names", "outputs", "logs", "unpinned")
+                 "held_names", "outputs", "logs", "unpinned", "was_unpinned")
 
     def __init__(self, jid, name, script):
         self.id = jid
@@ -71,6 +71,7 @@ class Job:
         self.directives = {}
         self.invalid_dep = False
         self.unpinned = False
+        self.was_unpinned = False
 
 
 class Fault:
@@ -469,6 +470,8 @@ class Cluster:
     def set_code(self, j, code, unpinned=False):
         j.code = code
         j.unpinned = unpinned
+        if unpinned:
+            j.was_unpinned = True
         self.trace.log("set_code", id=j.id, code=code)
 
     def foreign_job(self, jid, code):
